@@ -29,6 +29,7 @@ std::vector<Op> entity_alphabet(int level);
 // seeds: fixed scripts building rich files
 void build_seed_r1(nix::File &f); // one block, every entity kind, one link of every kind
 void build_seed_r2(nix::File &f); // two blocks, nesting depth 4, one target linked from many holders
+void build_seed_r3(nix::File &f); // R1 plus a second block and at least two links in every link container
 
 // session helper: a work file that can be closed and reopened
 struct Session {
